@@ -93,6 +93,7 @@ def main():
             "quick_cmd": f"./check {pid} quick",
             "thorough_cmd": f"./check {pid} thorough",
             "evidence_file": f"/verif/evidence/{pid}.json",
+            "replay_cmd_template": f"./check {pid} quick --replay {{path}}",
             "engine": eng,
             "level_claimed": {"category": cat, "text": text, "design_ref": ref},
             "level_note": note,
